@@ -55,3 +55,10 @@ func vAssertNoPanic(id string)  { panic("intrinsic") }
 func vAssertNoDeadlock(id string) { panic("intrinsic") }
 func vCatch(f func()) bool      { panic("intrinsic") }
 func vTier() int                { panic("intrinsic") }
+func (w *vWin64) Clone() *vWin64           { panic("intrinsic") }
+func vBlobFromCell(x uint64) []byte        { panic("intrinsic") }
+func vBlobToCell(b []byte) uint64          { panic("intrinsic") }
+func vStrFromCell(x uint64) string         { panic("intrinsic") }
+func vStrToCell(s string) uint64           { panic("intrinsic") }
+func vEncodeConfiguration(c Configuration) []byte { panic("intrinsic") }
+func vBaseAlign12()              { panic("intrinsic") }
